@@ -24,6 +24,11 @@ class InjectedFault(Exception):
     pass
 
 
+class InjectedInterrupt(BaseException):
+    """a fault that `except Exception` handlers do not see (like KeyboardInterrupt / SystemExit)"""
+    pass
+
+
 class _State:
     active = False
     trace = None
@@ -52,11 +57,11 @@ def _make_wrapper(f, name):
         p = st.plan
         if p is not None and p[0] == name and p[1] == n and p[2] == "before" and not st.fired:
             st.fired = True
-            raise InjectedFault("%s#%d before" % (name, n))
+            raise (InjectedInterrupt if len(p) > 3 and p[3] == "interrupt" else InjectedFault)("%s#%d before" % (name, n))
         r = f(*a, **k)
         if p is not None and p[0] == name and p[1] == n and p[2] == "after" and not st.fired:
             st.fired = True
-            raise InjectedFault("%s#%d after" % (name, n))
+            raise (InjectedInterrupt if len(p) > 3 and p[3] == "interrupt" else InjectedFault)("%s#%d after" % (name, n))
         return r
     wrapper.__pbt_wrapped__ = True
     return wrapper
